@@ -19,7 +19,9 @@ only).
 -/
 import AvoVerif.Model.RegHW
 import AvoVerif.Gen.Regs
+import AvoVerif.Gen.RegVars
 import AvoVerif.Oracle.RegHW
+import AvoVerif.Drv.C20
 namespace Avo.Reg
 open Avo.Gen Avo.Oracle
 
@@ -210,12 +212,40 @@ theorem reg_identity_exec {r r' : RegRow} {g g' : List HWRow}
   rw [reg_identity_tbl hr hr', c, c', n, n']
 
 /-- Every physical register has a non-empty group of measurements (so the
-statements above are not vacuous); all but the four views of the stack pointer
-were also executed. -/
+statements above are not vacuous).  (Which of them were also EXECUTED is
+`reg_executed_gp` below and `coverage.oracle_RegHW` in the evidence.) -/
 theorem reg_measured {r : RegRow} (hr : r ∈ Gen.regs) (hp : physical r) :
     ∃ g, (r, g) ∈ List.zip Gen.regs Oracle.regHW ∧ g ≠ [] := by
   obtain ⟨g, hg, hok⟩ := reg_hw hr hp
   exact ⟨g, hg, hok.2.1⟩
+
+/-- The "executed on the CPU" half of `RegOK` is not vacuous: every measurement
+of a general-purpose register other than the four views of the stack pointer
+carries an execution result (any x86-64 host can run these).  For vector and
+opmask rows execution needs AVX-512 on the host; the check module turns a host
+without it into a recorded coverage restriction (`executed_rows`), not into a
+silent pass. -/
+theorem reg_executed_gp : ∀ h ∈ Oracle.regHW.flatten, h.cls = kindGP → h.num ≠ 4 → h.exec.isSome = true := by
+  decide +kernel
+
+-- non-vacuity of reg_identity / reg_identity_exec: AX and AH share id 256 and the CPU changed
+-- GP register 0 for both; AX and SI do not, and the CPU changed registers 0 and 6
+example : ((⟨"AX", 1, 0, 15, 8, 0, 256⟩ : RegRow),
+      [(⟨"AX", 1, 8, "MOVQ", "legacy", true, 1, 0, 8, false, some ⟨1, 0, 0xff, 0x0⟩⟩ : HWRow)]) ∈
+      List.zip Gen.regs Oracle.regHW ∧
+    ((⟨"SI", 1, 6, 15, 8, 0, 393472⟩ : RegRow),
+      [(⟨"SI", 1, 8, "MOVQ", "legacy", true, 1, 6, 8, false, some ⟨1, 6, 0xff, 0x0⟩⟩ : HWRow)]) ∈
+      List.zip Gen.regs Oracle.regHW := by decide +kernel
+example : IdentOK [⟨"AX", 1, 8, "MOVQ", "legacy", true, 1, 0, 8, false, some ⟨1, 0, 0xff, 0x0⟩⟩]
+    [⟨"AH", 1, 1, "MOVB", "legacy", true, 1, 0, 1, true, some ⟨1, 0, 0x2, 0x0⟩⟩]
+    ⟨"AX", 1, 0, 15, 8, 0, 256⟩ ⟨"AH", 1, 0, 2, 1, 0, 256⟩ := by decide
+-- the statement is not trivially true: SI with AX's id is rejected, and so are AX/AH with different ids
+example : ¬ IdentOK [⟨"AX", 1, 8, "MOVQ", "legacy", true, 1, 0, 8, false, some ⟨1, 0, 0xff, 0x0⟩⟩]
+    [⟨"SI", 1, 8, "MOVQ", "legacy", true, 1, 6, 8, false, some ⟨1, 6, 0xff, 0x0⟩⟩]
+    ⟨"AX", 1, 0, 15, 8, 0, 256⟩ ⟨"SI", 1, 6, 15, 8, 0, 256⟩ := by decide
+example : ¬ IdentOK [⟨"AX", 1, 8, "MOVQ", "legacy", true, 1, 0, 8, false, some ⟨1, 0, 0xff, 0x0⟩⟩]
+    [⟨"AH", 1, 1, "MOVB", "legacy", true, 1, 0, 1, true, some ⟨1, 0, 0x2, 0x0⟩⟩]
+    ⟨"AX", 1, 0, 15, 8, 0, 256⟩ ⟨"AH", 1, 0, 2, 1, 0, 65792⟩ := by decide
 
 /-! ### reg_views: lookup by (id, spec) and the conversion `register.as` -/
 
@@ -330,6 +360,15 @@ theorem reg_views_missing {r : RegRow} (hr : r ∈ Gen.regs) (hp : physical r) (
   simp only [Bool.or_eq_true, Bool.and_eq_true, beq_iff_eq, decide_eq_true_eq]
   omega
 
+-- non-vacuity of reg_views_exact / reg_views / reg_views_missing: SI is a physical register of the table; its
+-- high-byte lookup is none and the view does not exist, its 16-bit lookup is the register SI of mask 3
+example : (⟨"SI", 1, 6, 15, 8, 0, 393472⟩ : RegRow) ∈ Gen.regs ∧ physical ⟨"SI", 1, 6, 15, 8, 0, 393472⟩ ∧
+    lookupID Gen.regs 393472 S8H = none ∧ hwViewExists 1 6 S8H = false ∧
+    lookupID Gen.regs 393472 S16 = some ⟨"SI", 1, 6, 3, 2, 0, 393472⟩ ∧ hwViewExists 1 6 S16 = true ∧
+    (1 = kindGP ∧ S8H ∈ [S8L, S8H, S16, S32, S64]) := by decide +kernel
+-- and a spec no family has (mask 5) is refused for AX while the view does not exist
+example : lookupID Gen.regs 256 5 = none ∧ hwViewExists 1 0 5 = false := by decide +kernel
+
 /-- **C20 (conversion of physical registers).**  `register.as`, for every
 physical register and EVERY spec: it either returns a register of the table
 with the same id, the requested mask and that mask's byte count as size — and
@@ -354,16 +393,172 @@ example : physAs Gen.regs ⟨"SI", 1, 6, 15, 8, 0, 393472⟩ S8H = none := by de
 example : physAs Gen.regs ⟨"Z31", 2, 31, 127, 64, 0, 2032128⟩ S128 = some ⟨"X31", 2, 31, 31, 16, 0, 2032128⟩ := by
   decide +kernel
 
+/-- `reg.Allocation.LookupRegister` for a virtual register allocated to the
+physical id `pid`: `LookupID(pid, v.spec())`. -/
+def allocLookup (tbl : List RegRow) (v : Virt) (pid : Nat) : Option RegRow := lookupID tbl pid v.spec
+
+/-- **C20 (virtual → physical).**  The view of the physical register a virtual
+register is allocated to (what `BindRegisters` substitutes): for every virtual
+register (ANY spec) and every physical register, it is the register with the
+physical register's identity and the VIRTUAL register's mask — and it exists
+exactly when that view exists in hardware (e.g. none for a high-byte virtual
+allocated to SI). -/
+theorem virt_to_phys {r : RegRow} (hr : r ∈ Gen.regs) (hp : physical r) (v : Virt) :
+    AsOK r.kind r.idx r.id v.spec ((allocLookup Gen.regs v r.id).map (fun p => (p.id, p.mask, p.size))) := by
+  unfold allocLookup
+  rw [lookupID_tbl hr]
+  exact phys_as hr hp v.spec
+
+example : allocLookup Gen.regs ⟨5, kindGP, S8H⟩ 256 = some ⟨"AH", 1, 0, 2, 1, 0, 256⟩ := by decide +kernel
+example : allocLookup Gen.regs ⟨5, kindGP, S8H⟩ 393472 = none := by decide +kernel
+example : ¬ AsOK 1 0 256 S8H (some (256, S8L, 1)) := by decide
+
+/-- `LookupID` on ANY value (so also one with junk in the flag byte): what it
+finds is the register the kind and index fields name, with the requested mask. -/
+theorem lookupID_junk (id s : Nat) : JunkLookupOK id s (lookupID Gen.regs id s) := by
+  cases h : lookupID Gen.regs id s with
+  | none => trivial
+  | some p =>
+    unfold lookupID at h
+    split at h
+    · cases h
+    · obtain ⟨hm, h1, h2, h3⟩ := lookup_some h
+      exact ⟨by rw [(ids_wellformed p hm).2.2, h1, h2], h3⟩
+
+example : lookupID Gen.regs 258 S64 = some ⟨"AX", 1, 0, 15, 8, 0, 256⟩ := by decide +kernel
+
+/-! ### Exported register variables (reg.ECX, reg.R10W, reg.X7, reg.FramePointer …)
+
+`Gen.regVars`: every exported package-level variable of package reg whose type
+implements `reg.Register` (enumerated with go/types), with what its value reports
+in the compiled package. -/
+
+/-- The hand-written naming table is sane: 172 names, each denoting a width view
+that exists in hardware. -/
+theorem varDenotes_sane :
+    varDenotes.length = 172 ∧
+    ∀ p ∈ varDenotes, ∃ s ∈ [S8L, S8H, S16, S32, S64, S128, S256, S512],
+      hwViewExists p.2.cls p.2.num s = true ∧ maskBytes s = viewBytes p.2.width p.2.hi := by decide +kernel
+
+/-- **C20 (exported variables).**  Every exported register variable holds a
+register of avo's families, and a variable with a hardware register name holds
+the register that name denotes: its assembler name, assembled in its width
+context, IS the register class / number / width / byte half the variable's name
+denotes (every measurement, at least one), and it reports that class, number,
+width and exactly those bytes as its mask. -/
+theorem reg_vars : ∀ p ∈ Gen.regVars, VarOK Gen.regs Oracle.regHW p.1 p.2.1 p.2.2 := by decide +kernel
+
+-- non-vacuity: ECX is in the table of variables and has a name the naming table knows;
+-- the statement rejects ECX bound to EDX's register (row 42 of the table) and SPB bound to AH's (row 8)
+example : ("ECX", 41, (⟨"CX", 1, 1, 7, 4, 0, 65792⟩ : RegRow)) ∈ Gen.regVars ∧
+    varDenotes.lookup "ECX" = some ⟨kindGP, 1, 4, false⟩ := by decide +kernel
+example : Gen.regs[42]? = some ⟨"DX", 1, 2, 7, 4, 0, 131328⟩ ∧
+    ¬ VarOK Gen.regs Oracle.regHW "ECX" 42 ⟨"DX", 1, 2, 7, 4, 0, 131328⟩ := by decide +kernel
+example : Gen.regs[8]? = some ⟨"AH", 1, 0, 2, 1, 0, 256⟩ ∧
+    ¬ VarOK Gen.regs Oracle.regHW "SPB" 8 ⟨"AH", 1, 0, 2, 1, 0, 256⟩ := by decide +kernel
+
 /-! ### Virtual registers: `virtual.as` and `reg.Collection` -/
 
-/-- **C20 (conversion of virtual registers).**  `virtual.as` keeps the identity
-and yields the requested spec, for every virtual register and every spec. -/
-theorem virt_views (v : Virt) (s : Nat) :
+/-- `virtual.as` keeps identity and kind and yields exactly the requested spec, for
+every virtual register and EVERY spec value (the raw, unexported operation). -/
+theorem virt_as_exact (v : Virt) (s : Nat) :
     (v.as s).id = v.id ∧ (v.as s).mask = s ∧ (v.as s).size = specSize s ∧ (v.as s).kind = v.kind := ⟨rfl, rfl, rfl, rfl⟩
 
-theorem virt_as_ok (v : Virt) (s : Nat) (hs : s < 128) :
-    VAsOK v.id s (some ((v.as s).id, (v.as s).mask, (v.as s).size)) :=
-  ⟨rfl, rfl, specSize_bytes s hs⟩
+/-- "Some register of the kind has that view" is `hwViewExists` for some index. -/
+theorem hwSpecExists_iff (k s : Nat) : hwSpecExists k s = true ↔ ∃ i, hwViewExists k i s = true := by
+  constructor
+  · intro h
+    refine ⟨0, ?_⟩
+    simp only [hwSpecExists, Bool.or_eq_true, Bool.and_eq_true, beq_iff_eq] at h
+    rcases h with (⟨hk, hs⟩ | ⟨hk, hs⟩) | ⟨hk, hs⟩
+    · rcases hs with (((hs | hs) | hs) | hs) | hs <;> subst hk <;> subst hs <;> decide
+    · rcases hs with (hs | hs) | hs <;> subst hk <;> subst hs <;> decide
+    · subst hk; subst hs; decide
+  · rintro ⟨i, h⟩
+    simp only [hwViewExists, Bool.or_eq_true, Bool.and_eq_true, beq_iff_eq, decide_eq_true_eq] at h
+    rcases h with (⟨⟨hk, _⟩, hs⟩ | ⟨⟨hk, _⟩, hs⟩) | ⟨⟨hk, _⟩, hs⟩
+    · rcases hs with (((hs | hs) | hs) | hs) | ⟨hs, _⟩ <;> subst hk <;> subst hs <;> decide
+    · rcases hs with (hs | hs) | hs <;> subst hk <;> subst hs <;> decide
+    · subst hk; subst hs; decide
+
+/-- A width view that exists is one of the named specs (< 128). -/
+theorem hwSpecExists_lt {k s : Nat} (h : hwSpecExists k s = true) : s < 128 := by
+  simp only [hwSpecExists, Bool.or_eq_true, Bool.and_eq_true, beq_iff_eq] at h
+  rcases h with (⟨_, hs⟩ | ⟨_, hs⟩) | ⟨_, hs⟩
+  · rcases hs with (((hs | hs) | hs) | hs) | hs <;> subst hs <;> decide
+  · rcases hs with (hs | hs) | hs <;> subst hs <;> decide
+  · subst hs; decide
+
+/-- Every conversion method asks for a view that registers of the method's kind have. -/
+theorem method_view_exists {m : String} {s k : Nat} (hs : methodSpec m = some s) (hk : methodKind m = some k) :
+    hwSpecExists k s = true ∧ s < 128 := by
+  unfold methodSpec at hs; unfold methodKind at hk
+  split at hs <;> simp_all <;> (subst hs; subst hk; decide)
+
+/-- **C20 (conversion of virtual registers).**  Through the public API (the
+methods `As8 … As64` of general-purpose and `AsX/AsY/AsZ` of vector registers) a
+virtual register is only ever converted to a width view that registers of its
+kind have in hardware, and the result has the same identity, the requested mask
+and that mask's byte count as size (`VAsOK`, including its existence clause). -/
+theorem virt_views (v : Virt) {m : String} {s : Nat} (hs : methodSpec m = some s) (hk : methodKind m = some v.kind) :
+    VAsOK v.kind v.id s (some ((v.as s).id, (v.as s).mask, (v.as s).size)) ∧ (v.as s).kind = v.kind := by
+  obtain ⟨hx, hlt⟩ := method_view_exists hs hk
+  exact ⟨⟨hx, rfl, rfl, specSize_bytes s hlt⟩, rfl⟩
+
+-- non-vacuity: a virtual 64-bit GP register converted by As8H; and the statement is not trivially true
+example : VAsOK kindGP 257 S8H (some (((⟨0, kindGP, S64⟩ : Virt).as S8H).id, ((⟨0, kindGP, S64⟩ : Virt).as S8H).mask,
+    ((⟨0, kindGP, S64⟩ : Virt).as S8H).size)) := (virt_views ⟨0, kindGP, S64⟩ (m := "As8H") rfl rfl).1
+example : ¬ VAsOK kindGP 257 S8H (some (257, S8L, 1)) := by decide
+example : ¬ VAsOK kindVector 513 S8H (some (513, S8H, 1)) := by decide
+example : ¬ VAsOK kindGP 257 S8H none := by decide
+
+/-- A virtual register asked for with a kind and width that exist in hardware
+is what was asked for (`reg.NewVirtual` / `Family.Virtual`: index chosen by the caller). -/
+theorem vnew_ok (idx kind spec : Nat) (hi : idx < 65536) (hk : kind < 256) (hx : hwSpecExists kind spec = true) :
+    VNewOK kind spec (some idx)
+      (some ((⟨idx, kind, spec⟩ : Virt).id, (⟨idx, kind, spec⟩ : Virt).mask, (⟨idx, kind, spec⟩ : Virt).size, kind)) := by
+  have hs : spec < 128 := hwSpecExists_lt hx
+  refine ⟨?_, ?_, rfl, ?_, rfl, hx, specSize_bytes spec hs⟩
+  · unfold Virt.id; rw [idIsVirtual_newid 1 _ _ (by omega)]; rfl
+  · unfold Virt.id; exact idKind_newid 1 _ _ hk
+  · unfold Virt.id; simp [idIndex_newid 1 _ _ hi]
+
+/-- The same for `Collection.VirtualRegister / GP(s) / Vec(s)` (index chosen by the collection). -/
+theorem coll_alloc_ok (c : Coll) (kind spec : Nat) (hk : kind < 256) (hx : hwSpecExists kind spec = true) :
+    VNewOK kind spec none (some ((c.alloc kind spec).1.id, (c.alloc kind spec).1.mask, (c.alloc kind spec).1.size, kind)) := by
+  have hs : spec < 128 := hwSpecExists_lt hx
+  refine ⟨?_, ?_, rfl, rfl, rfl, hx, specSize_bytes spec hs⟩
+  · simp only [Coll.alloc, Virt.id]; rw [idIsVirtual_newid 1 _ _ (by omega)]; rfl
+  · simp only [Coll.alloc, Virt.id]; exact idKind_newid 1 _ _ hk
+
+/-- **F21 (genuine defect: views that do not exist in hardware ARE manufactured
+for virtual registers).**  avo's constructors never fail (`Virt.mk` / `Coll.alloc`
+are total, as `reg.NewVirtual`, `Family.Virtual`, `Collection.VirtualRegister`,
+`GP(s)`, `Vec(s)` are): for EVERY kind and width that no register of the kind
+has in hardware, the outcome violates `VNewOK`. -/
+theorem vnew_manufactures (kind spec : Nat) (idx : Option Nat) (out : Nat × Nat × Nat × Nat)
+    (hx : hwSpecExists kind spec = false) : ¬ VNewOK kind spec idx (some out) := by
+  obtain ⟨id, m, sz, k⟩ := out
+  intro h
+  have := h.2.2.2.2.2.1
+  rw [hx] at this; cases this
+
+/-- The concrete witnesses: `c.GP(reg.S512)` is a 64-byte "general-purpose register"
+(id 257, mask 0x7f, size 64); `c.Vec(reg.S8H)`; `VirtualRegister(KindOpmask, S8H)`. -/
+theorem vnew_manufactures_witness :
+    ¬ VNewOK kindGP S512 none (some (257, S512, 64, kindGP)) ∧
+    ¬ VNewOK kindVector S8H none (some (513, S8H, 1, kindVector)) ∧
+    ¬ VNewOK kindOpmask S8H none (some (769, S8H, 1, kindOpmask)) := by decide
+
+-- non-vacuity of vnew_ok / coll_alloc_ok
+example : VNewOK kindGP S8H (some 7) (some (459009, S8H, 1, kindGP)) := by decide
+example : VNewOK kindGP S512 (some 7) none := by decide
+example : ¬ VNewOK kindGP S16 (some 7) (some (459009, S64, 8, kindGP)) := by decide
+
+theorem virt_as_ok (v : Virt) (s : Nat) (hx : hwSpecExists v.kind s = true) :
+    VAsOK v.kind v.id s (some ((v.as s).id, (v.as s).mask, (v.as s).size)) := by
+  have hs : s < 128 := hwSpecExists_lt hx
+  exact ⟨hx, rfl, rfl, specSize_bytes s hs⟩
 
 /-- Virtual and physical registers never share an id. -/
 theorem virt_phys_disjoint (v : Virt) {r : RegRow} (hr : r ∈ Gen.regs) : v.id ≠ r.id := by
@@ -542,5 +737,82 @@ theorem class_conv_AL_fails :
     ¬ ClassOK (groupOf Oracle.regHW ⟨"AL", 1, 0, 1, 1, 0, 256⟩)
         [true, false, true, false, false, false, false, false, false, false,
          false, false, false, false, false, false] := by decide +kernel
+
+/-! ### The named constructors, and soundness of every acceptor of the driver
+
+The driver (Drv/C20.lean) answers an `accept-…` request with `ok` only if the
+declarative statement holds on the implementation's output it was given. -/
+
+/-- Every named `Collection` constructor hands out what `CtorOK` asks for. -/
+theorem ctor_ok (c : Coll) {ctor : String} {k s : Nat} (h : ctorKindSpec ctor = some (k, s)) :
+    CtorOK ctor k s (specSize s) (c.alloc k s).1.id := by
+  unfold CtorOK; rw [h]
+  have hks : k < 256 ∧ hwSpecExists k s = true := by
+    unfold ctorKindSpec at h
+    split at h <;> simp at h <;> (obtain ⟨rfl, rfl⟩ := h; decide)
+  refine ⟨rfl, rfl, specSize_bytes s (hwSpecExists_lt hks.2), ?_, ?_, hks.2⟩
+  · simp only [Coll.alloc, Virt.id]; rw [idIsVirtual_newid 1 _ _ (by omega)]; rfl
+  · simp only [Coll.alloc, Virt.id]; exact idKind_newid 1 _ _ hks.1
+
+example : CtorOK "GP8H" kindGP S8H 1 257 := by decide
+example : ¬ CtorOK "GP8H" kindGP S8L 1 257 := by decide
+
+open Avo.Drv.C20 in
+theorem bad_ne_ok (x : String) : "bad-" ++ x ≠ "ok" := by
+  intro h
+  have h1 := congrArg String.length h
+  rw [String.length_append] at h1
+  have h2 : "bad-".length = 4 := by decide
+  have h3 : "ok".length = 2 := by decide
+  omega
+
+open Avo.Drv.C20 in
+theorem explain_sound {p : Prop} [Decidable p] {why : String} (h : explain (decide p) why = "ok") : p := by
+  unfold explain at h
+  by_cases hp : p
+  · exact hp
+  · simp [hp] at h
+    exact absurd h (bad_ne_ok why)
+
+open Avo.Drv.C20 in
+theorem verdict_sound {p : Prop} [Decidable p] {why : String} (hw : why ≠ "ok")
+    (h : verdict (decide p) why = "ok") : p := by
+  unfold verdict at h
+  by_cases hp : p
+  · exact hp
+  · simp [hp] at h
+    exact absurd h hw
+
+section
+open Avo.Drv.C20
+theorem acceptReg_sound {g : List HWRow} {r : RegRow} (h : explainReg g r = "ok") : RegOK g r := explain_sound h
+theorem acceptVar_sound {name : String} {i : Nat} {r : RegRow} (h : explainVar name i r = "ok") :
+    VarOK Gen.regs Oracle.regHW name i r := explain_sound h
+theorem acceptVNew_sound {k s : Nat} {i : Option Nat} {o : Option (Nat × Nat × Nat × Nat)}
+    (h : explainVNew k s i o = "ok") : VNewOK k s i o := explain_sound h
+theorem acceptIdent_sound {g g' : List HWRow} {r r' : RegRow} (h : acceptIdent g g' r r' = "ok") :
+    g ≠ [] ∧ g' ≠ [] ∧ IdentOK g g' r r' := verdict_sound (by decide) h
+theorem acceptAs_sound {k i id s : Nat} {o : Option (Nat × Nat × Nat)} (h : acceptAs k i id s o = "ok") :
+    AsOK k i id s o := verdict_sound (by decide) h
+theorem acceptLookup_sound {k i id s : Nat} {o : Option (Nat × Nat × Nat)} (h : acceptLookup k i id s o = "ok") :
+    AsOK k i id s o := verdict_sound (by decide) h
+theorem acceptVlook_sound {k i id s : Nat} {o : Option (Nat × Nat × Nat)} (h : acceptVlook k i id s o = "ok") :
+    AsOK k i id s o := verdict_sound (by decide) h
+theorem acceptLookupVirtual_sound {id : Nat} {o : Option RegRow} (h : acceptLookupVirtual id o = "ok") :
+    VirtualLookupOK id o := verdict_sound (by decide) h
+theorem acceptVAs_sound {id s : Nat} {o : Option (Nat × Nat × Nat)} (h : acceptVAs id s o = "ok") :
+    VAsOK (idKind id) id s o := verdict_sound (by decide) h
+theorem acceptJunk_sound {id s : Nat} {o : Option RegRow} (h : acceptJunk id s o = "ok") :
+    JunkLookupOK id s o := verdict_sound (by decide) h
+theorem acceptAllocFail_sound {n : Nat} (h : acceptAllocFail n = "ok") : AllocFailOK n := verdict_sound (by decide) h
+theorem acceptCtor_sound {ctor : String} {k m sz id : Nat} (h : acceptCtor ctor k m sz id = "ok") :
+    CtorOK ctor k m sz id := verdict_sound (by decide) h
+theorem acceptFresh_sound {k i j a b : Nat} (h : acceptFresh k i j a b = "ok") : FreshOK k i j a b :=
+  verdict_sound (by decide) h
+theorem acceptClass_sound {g : List HWRow} {bits : List Bool} (h : acceptClass g bits = "ok") : ClassOK g bits :=
+  verdict_sound (by decide) h
+theorem acceptVClass_sound {k m : Nat} {bits : List Bool} (h : acceptVClass k m bits = "ok") : VClassOK k m bits :=
+  verdict_sound (by decide) h
+end
 
 end Avo.Reg
